@@ -82,6 +82,9 @@ func LazyMap[K comparable, V any](keys []K, gen func(K) (V, bool)) map[K]V {
 }
 func lazyMapHook()
 
+// NoSep assumes that the text s does not contain the one-byte separator sep (e.g. base64url output never contains '.').
+func NoSep(s string, sep string)
+
 // Resolved reports whether the dynamic type of a havoced interface value has been looked at (and thereby fixed) yet.
 func Resolved(x any) bool
 
